@@ -1,7 +1,7 @@
 (* C12 property theorems.  Only statements closed by [exact]; each followed by Print Assumptions.
    All are about the definitions of C12/Model.v that the correspondence harness (C12/Harness.v) runs.
    wf r = the record's field names are pairwise distinct (what every reader delivers). *)
-From Miller Require Import Base.Bytes Base.Record C12.Model C12.Proofs.
+From Miller Require Import Base.Bytes Base.Record C12.Model C12.Proofs C12.ProofsStream.
 From Coq Require Import Permutation.
 
 (* ---- cut: -f keeps exactly the named fields in record order (definitional), -x -f exactly the others, and the two
@@ -129,6 +129,17 @@ Theorem C12_nest_implode_explode_partial :
 Proof. exact explode_implode_single. Qed.
 Print Assumptions C12_nest_implode_explode_partial.
 
+(* the same over a whole stream: every record has the field, the records agree on the other fields' names (same
+   comma-joined key signature K) and differ pairwise in the other fields' values (as comma-joined text): explode then
+   implode is the identity on the stream, order included *)
+Theorem C12_nest_implode_explode_stream :
+  forall f sep K rs,
+    (forall r, In r rs -> has f r = true /\ okeys f r = K) ->
+    NoDup (map (ovals f) rs) ->
+    implode_records f sep (flat_map (explode_records f sep) rs) = rs.
+Proof. exact explode_implode_stream. Qed.
+Print Assumptions C12_nest_implode_explode_stream.
+
 Theorem C12_split_join_inverse : forall sep s, join_with [sep] (split1 sep s) = s.
 Proof. exact join_split1. Qed.
 Print Assumptions C12_split_join_inverse.
@@ -206,4 +217,15 @@ Proof.
   cbv zeta. split; [apply wf_iff; vm_compute; reflexivity|]. split.
   - intros H. apply mem_In in H. vm_compute in H. discriminate.
   - vm_compute. repeat split; reflexivity.
+Qed.
+
+Example C12_nonvacuous_stream :
+  let rs := [[(B "x", B "p;q"); (B "id", B "1")]; [(B "x", B ";"); (B "id", B "2")]] in
+  (forall r0, In r0 rs -> has (B "x") r0 = true /\ okeys (B "x") r0 = B "id")
+  /\ NoDup (map (ovals (B "x")) rs)
+  /\ List.length (flat_map (explode_records (B "x") ";") rs) = 4%nat
+  /\ implode_records (B "x") ";" (flat_map (explode_records (B "x") ";") rs) = rs.
+Proof.
+  cbv zeta. split; [intros r0 [<-|[<-|[]]]; split; reflexivity|].
+  split; [apply nodupb_NoDup; vm_compute; reflexivity|]. split; vm_compute; reflexivity.
 Qed.
